@@ -16,10 +16,12 @@ type fnView struct {
 	info *types.Info
 	fd   *ast.FuncDecl
 	defs map[types.Object][]ast.Expr
+	// tdefs: right-hand sides of tuple assignments (x, y = f()), per assigned variable; used by flow queries only
+	tdefs map[types.Object][]ast.Expr
 }
 
 func newFnView(p *packages.Package, fd *ast.FuncDecl) *fnView {
-	v := &fnView{p: p, info: p.TypesInfo, fd: fd, defs: map[types.Object][]ast.Expr{}}
+	v := &fnView{p: p, info: p.TypesInfo, fd: fd, defs: map[types.Object][]ast.Expr{}, tdefs: map[types.Object][]ast.Expr{}}
 	ast.Inspect(fd.Body, func(n ast.Node) bool {
 		switch s := n.(type) {
 		case *ast.AssignStmt:
@@ -43,6 +45,9 @@ func newFnView(p *packages.Package, fd *ast.FuncDecl) *fnView {
 					}
 				} else {
 					v.defs[o] = append(v.defs[o], nil) // tuple assignment
+					if len(s.Rhs) == 1 {
+						v.tdefs[o] = append(v.tdefs[o], s.Rhs[0])
+					}
 				}
 			}
 		case *ast.ValueSpec:
